@@ -23,6 +23,41 @@ PROPS = {
                      "predicate truth for delete-where comes from the repository's expression evaluator on in-memory values (no lake, no pruner)",
                      "the exhaustive-short-histories half of the quantifier is enumeration, not simulation, and is not claimed"],
     ),
+    "C08": dict(
+        engine="lakesim", level="exploration", gomaxprocs=1, env={"GODEBUG": "asyncpreemptoff=1"},
+        budget_s=dict(quick=60, thorough=1500),
+        rule=("one run = a seeded pool (many small objects with overlapping and disjoint key ranges, null/missing/mixed-type keys, asc/desc, small thresholds and strides) and 1..5 programs from a "
+              "grammar (filters, explicit sort, head/tail after sort, count/sum/min/max/union by key, cut); each program runs at parallelism 1 (reference) and at a drawn subset of {2,3,8,16} "
+              "with the scan legs and merge/combine parents parked at simhook points and released by the seeded scheduler (uniform in 2/3 of the runs). Comparison: identical sequence for "
+              "programs that end in an explicit total order, identical multiset plus identical key sequence for pool-key-ordered scans, identical multiset otherwise. "
+              "Non-trivial = at least one program compared and at least one scheduling step taken; distinct = distinct hash of all draws (pool, programs, schedule)."),
+        real=REAL_LAKE, stub=STUB_LAKE,
+        assumptions=["GOMAXPROCS=1, async preemption off and GC off during a run, so that the order in which legs arrive at a hook point is reproducible; which leg proceeds is the scheduler's choice",
+                     "aggregates are restricted to exactly comparable ones (count, integer sum/min/max, union as a set)",
+                     "schedules are explored at hook-point granularity (legs asking for the next partition, merge/combine parents handing over a batch)"],
+    ),
+    "C09": dict(
+        engine="lakesim", level="exploration", gomaxprocs=1, env={"GODEBUG": "asyncpreemptoff=1"},
+        budget_s=dict(quick=60, thorough=1500),
+        rule=("one run = a seeded pool whose records carry a field f with a drawn type mix (few/constant/many distinct strings, ints, uint+float+int mixed, several types, nulls, absent), 1..4 loads "
+              "(some beyond 256 distinct values), then the auto-vectorised shapes count() by <field> and sum(<field>) at parallelism 1,2,3 evaluated with no vector copies, with some objects "
+              "vectorised (planner must fall back), with all vectorised, and after removing the vectors again; results compared as multisets, an error only with vectors is a violation. "
+              "Non-trivial = the all-vectors configuration was reached; distinct = distinct hash of all draws."),
+        real=REAL_LAKE, stub=STUB_LAKE,
+        assumptions=["only the lake half of the property is decided (adding/removing vector copies never changes a result); agreement of the two runtimes over the whole vectorisable operator subset is a pure differential without schedule or fault and is not claimed",
+                     "if the sequential plan itself disagrees between parallelism 1 and 2 the run is discarded here (that is C08's finding)"],
+    ),
+    "C16": dict(
+        engine="lakesim", level="exploration",
+        budget_s=dict(quick=60, thorough=1500),
+        rule=("one run = a seeded pool built to make pruning bite (thresholds 1..400 bytes => up to tens of objects, strides 1..40 bytes => many seek entries, duplicate boundary keys, null/missing/"
+              "cross-type keys, asc/desc, optional compaction) and 2..10 filters from a grammar over {key op literal, literal op key} x {==,!=,<,<=,>,>=}, and/or/not to depth 3, mixed with non-key "
+              "predicates, literals drawn from the keys present +-1; each filter is run as a lake query (a fifth as delete-where) and compared with the same filter applied to the branch's values "
+              "without a lake. Non-trivial = at least one filter compared; reach probes count runs where objects were skipped / byte ranges narrowed; distinct = distinct hash of all draws."),
+        real=REAL_LAKE, stub=STUB_LAKE,
+        assumptions=["the reference is the repository's own filter evaluation on in-memory values (no pool, no pruner): the statement's 'full scan followed by the same filter'",
+                     "the exhaustive small-domain enumeration of pruner(min,max) in the quantifier is enumeration, not simulation, and is not claimed"],
+    ),
     "C12": dict(
         engine="lakesim", level="exploration",
         budget_s=dict(quick=90, thorough=1800),
